@@ -1,7 +1,7 @@
 SPECIFICATION Spec
 VIEW View
 CONSTANTS D = 2
-  MaxPages = 7
+  MaxPages = 6
   MaxWriters = 5
   MaxCbs = 0
   MVals = {"-"}
